@@ -215,8 +215,12 @@ func (v *SimpleCompositeValue) RemoveMember(_ ValueTransferContext, name string)
 	return value
 }
 
-func (v *SimpleCompositeValue) SetMember(_ ValueTransferContext, name string, value Value) bool {
-	_, hasField := v.Fields[name]
+func (v *SimpleCompositeValue) SetMember(context ValueTransferContext, name string, value Value) bool {
+	existingValue, hasField := v.Fields[name]
+	if hasField && existingValue != nil {
+		// Overwriting a field that still holds a resource would lose the resource
+		CheckResourceLoss(context, existingValue)
+	}
 	v.Fields[name] = value
 	return hasField
 }
